@@ -266,6 +266,10 @@ def observe(o, cfg, tok, der=True):
     j1, j2 = jo(o.jd1), jo(o.jd2)
     if j1[0] != j2[0]:
         raise Mixed()
+    if der and getattr(cfg, "near", False):
+        # the scale conversions read time.mjd through the same value-keyed memoization: keep its entries in step with
+        # those of the derived format that is observed (the model has one to_format cache)
+        o.mjd
     d = jo(getattr(o, getattr(cfg, "der", "mjd"))) if der else None
     return (bool(scalar), rows, jo(o.jd1), jo(o.jd2), int(len(o)), d, FMT_TAG[fmt], scale)
 
@@ -694,6 +698,10 @@ def random_op(rng, h, cfg):
         return ("subset", k, it)
     if c == "insert":
         cands = [i for i in range(n) if h.summary(i)[2] == scale and h.birth[i][5] == h.birth[k][5]]
+        if m == 0 and cfg.fmt in ("datetime", "isot"):
+            # an empty text / datetime array holds float64 values (np.array([])): np.insert of strings into it raises.
+            # Noted in design/C04.md, not generated.
+            return ("view", k)
         other = cross_b(h, cfg, k)          # objects of the other scale: insert converts them
         if other and rng.random() < 0.6:
             cands = other
@@ -982,6 +990,74 @@ def index_type_cases(ctx):
 INDEX_FMTS = ("jd", "mjd", "gps_ws", "days")
 
 
+def memo_cases(ctx):
+    """subset(idx, memo) with ONE memo for several distinct arrays that hold the same epochs (a copy, the same epochs in
+    another format, gps_ws next to jd), with equal and with different index lists; the same array twice must give the
+    same object again"""
+    from midgard.data.time import Time
+    cases, metas = [], []
+    cfg = AnyScale()
+    jd = np.array([2_458_000.5 + i + 0.25 * (i % 4) for i in range(6)])
+
+    def arrays(kind):
+        if kind == "copy":
+            t = Time(jd, scale="utc", fmt="jd")
+            return [("t", t), ("copy.copy(t)", copy.copy(t))]
+        if kind == "fmt":
+            t = Time(jd, scale="utc", fmt="jd")
+            return [("t", t), ("type(t).from_jds(t.jd1, t.jd2, 'mjd')", type(t).from_jds(t.jd1, t.jd2, "mjd"))]
+        if kind == "gps":
+            t = Time(jd, scale="gps", fmt="jd")
+            return [("t", t), ("type(t).from_jds(t.jd1, t.jd2, 'gps_ws')", type(t).from_jds(t.jd1, t.jd2, "gps_ws"))]
+        t = Time(jd, scale="utc", fmt="mjd")
+        return [("t", t), ("t.view()", t.view()), ("t[:]", t[:])]
+
+    items = [("take", (0, 1)), ("take", (3, 4, 5)), ("mask", (True, False, True, True, False, False)),
+             ("slice", 1, 4, 1), ("take", (5, 0, 2))]
+    plans = []
+    for kind in ("copy", "fmt", "gps", "views"):
+        for ia, ib in ((0, 1), (2, 2), (4, 3), (1, 1)):
+            plans.append((kind, [(0, ia), (1, ib), (0, ia)]))
+        plans.append((kind, [(1, 2), (0, 0), (1, 2), (0, 0)]))
+    for kind, seq in plans:
+        clear_caches()
+        tok = Tok()
+        arrs = arrays(kind)
+        memo = {}
+        results = []
+        calls, lines = [], [f"t = Time(np.array([2458000.5 + i + 0.25*(i % 4) for i in range(6)]), ...)  # {kind}", "memo = {}"]
+        ok = True
+        for which, ii in seq:
+            name, arr = arrs[which]
+            it = items[ii]
+            try:
+                oa = observe(arr, cfg, tok)
+                try:
+                    r = arr.subset(pyitem(it), memo)
+                    again = next((k for k, x in enumerate(results) if x is r), -1)
+                    results.append(r)
+                    res = ("obj", observe(r, cfg, tok))
+                except Exception:
+                    results.append(None)
+                    again, res = -1, ("err",)
+            except Exception as e:
+                ctx.count(f"memo:outside-model:{type(e).__name__}")
+                ok = False
+                break
+            calls.append(f"({which}, {oobs_term(oa)}, {item_term(it)}, {obsres_term(res)}, {emit.z(again)})")
+            lines.append(f"{name}.subset({item_src(it) if it[0] != 'slice' else 'slice(%r, %r, %r)' % tuple(it[1:])}, memo)"
+                         + ("   # -> raised" if res[0] == "err" else f"   # -> fmt {results[-1].fmt}, len {len(results[-1])}"
+                            + (f", the object of call {again}" if again >= 0 else "")))
+        if not ok:
+            continue
+        cases.append(emit.lst(calls))
+        metas.append(dict(kind="shared_memo", arrays=kind, calls=lines))
+        ctx.case(("MEMO", kind, tuple(seq)), nontrivial=True)
+        ctx.count(f"memo:{kind}")
+    clear_caches()
+    return cases, metas
+
+
 class AnyScale:
     """observation context for the insert oracle: four scales, no root"""
     scales = ("utc", "tai", "gps", "tt")
@@ -1170,7 +1246,7 @@ def plan(ctx):
                     trees.append((n, fmt, op, 2 if (rich_first or n not in (3, 5)) else 3, 1))
         n_rnd, ln = 4000, 30
     for i in range(n_rnd):
-        rnd.append((ctx.rng.choice(lengths), ctx.rng.choice(["jd", "mjd", "gps_ws", "jd", "gps_ws", "days", "seconds", "datetime", "isot", "jd~", "gps_ws~", "mjd~"]),
+        rnd.append((ctx.rng.choice(lengths), ctx.rng.choice(["jd", "mjd", "gps_ws", "jd", "gps_ws", "days", "seconds", "jd~", "gps_ws~", "mjd~"]),
                     ctx.rng.randrange(1 << 60), ctx.rng.choice([ln, ln, 12, 6])))
     return trees, rnd
 
@@ -1380,10 +1456,13 @@ def run(ctx):
     im = [m for c, m in zip(ic, im) if c is not None]
     ic = [c for c in ic if c is not None]
     vi = emit.flatten_verdicts(ctx.coq_cases(emit.shard_terms("check_insert", ic, 200), REQ), len(ic))
+    mc, mm = memo_cases(ctx)
+    vm = emit.flatten_verdicts(ctx.coq_cases(emit.shard_terms("check_memo", mc, 50), REQ), len(mc))
     xc, xm = index_type_cases(ctx)
     vx = emit.flatten_verdicts(ctx.coq_cases(emit.shard_terms("check_idx", xc, 400), REQ), len(xc))
     for name, flat, meta, fid in (("eqhash", ve, em, "c04_eq_broadcast"), ("write", vw, wm, "c04_delattr_allowed"),
-                                  ("insert", vi, im, "c04_insert_gpsws_other_fmt"), ("index-type", vx, xm, "c04_npint_bare_float")):
+                                  ("insert", vi, im, "c04_insert_gpsws_other_fmt"), ("index-type", vx, xm, "c04_npint_bare_float"),
+                                  ("shared-memo", vm, mm, None)):
         if flat is None:
             ctx.violation({"broken": f"{name} shard did not evaluate", "errors": [e[1][-1500:] for e in ctx.last_coq_errors[:2]]},
                           what="correspondence (model evaluation) failed", found=False)
